@@ -134,7 +134,7 @@ def summarise(records, tier, seed):
     cov = {
         "evaluations": ag["evaluations"],
         "distinct_nontrivial": len(ag["hashes"]),
-        "rule": "random 1-4 component models; permutations: reversal/rotation/adjacent swap of lines inside every expressions and declaration block, reversal and shuffles of the block order "
+        "rule": "random 1-4 component models (+ a helper repeated in two components, + a definition repeated in its component with another trailing unit / remark); permutations: reversal/rotation/adjacent swap of lines inside every expressions and declaration block, reversal and shuffles of the block order "
         "(the unnamed expressions block is kept ahead of named ones); each permutation is first confirmed to leave the reference model unchanged; evaluation = one permuted text loaded, compared with == "
         "and generated for numpy and C (same process, same hash seed); non-trivial = >= 3 permutations checked; distinct by structural hash",
         "samples": C.pick_samples(records),
